@@ -57,3 +57,56 @@ Proof.
   apply lt_IZR. eapply Rle_lt_trans; [apply Zfloor_lb|]. lra.
 Qed.
 End B64.
+
+(* C14, float layer: the quotient of two integers 0 <= c <= n, 1 <= n, rounded to nearest in
+   any binary format with at least one digit, lies in [0,1], and n/n rounds to exactly 1. *)
+Section Quot.
+Variables prec emin : Z.
+Hypothesis Hprec : (1 <= prec)%Z.
+Hypothesis Hemin : (emin <= 0)%Z.
+Let fexp := FLT_exp emin prec.
+Local Instance prec_gt_0_q : Prec_gt_0 prec. Proof. unfold Prec_gt_0; lia. Qed.
+Notation rnd := (round radix2 fexp ZnearestE).
+
+Lemma format_one : generic_format radix2 fexp 1.
+Proof.
+  change 1 with (bpow radix2 0). apply generic_format_bpow. unfold fexp, FLT_exp. lia.
+Qed.
+
+Theorem quot_round_range (c n : Z) : (0 <= c <= n)%Z -> (1 <= n)%Z ->
+  0 <= rnd (IZR c / IZR n) <= 1.
+Proof.
+  intros Hc Hn.
+  assert (Hn0 : 0 < IZR n) by (apply IZR_lt; lia).
+  assert (H0 : 0 <= IZR c / IZR n).
+  { apply Rmult_le_pos; [apply IZR_le; lia|]. left. apply Rinv_0_lt_compat. exact Hn0. }
+  assert (H1 : IZR c / IZR n <= 1).
+  { apply (Rmult_le_reg_r (IZR n)); [exact Hn0|]. unfold Rdiv.
+    rewrite Rmult_assoc, Rinv_l, Rmult_1_r, Rmult_1_l by lra. apply IZR_le. lia. }
+  split.
+  - apply round_ge_generic; [apply FLT_exp_valid; exact prec_gt_0_q|apply valid_rnd_N|apply generic_format_0|exact H0].
+  - apply round_le_generic; [apply FLT_exp_valid; exact prec_gt_0_q|apply valid_rnd_N|apply format_one|exact H1].
+Qed.
+
+Theorem quot_round_one (n : Z) : (1 <= n)%Z -> rnd (IZR n / IZR n) = 1.
+Proof.
+  intros Hn. assert (Hn0 : 0 < IZR n) by (apply IZR_lt; lia).
+  unfold Rdiv. rewrite Rinv_r by lra.
+  apply round_generic; [apply valid_rnd_N|apply format_one].
+Qed.
+End Quot.
+
+Theorem quotient_rounding_b64_b32 :
+  (forall c n : Z, (0 <= c <= n)%Z -> (1 <= n)%Z ->
+     (0 <= round radix2 (FLT_exp (-1074) 53) ZnearestE (IZR c / IZR n) <= 1)%R) /\
+  (forall n : Z, (1 <= n)%Z -> round radix2 (FLT_exp (-1074) 53) ZnearestE (IZR n / IZR n) = 1%R) /\
+  (forall c n : Z, (0 <= c <= n)%Z -> (1 <= n)%Z ->
+     (0 <= round radix2 (FLT_exp (-149) 24) ZnearestE (IZR c / IZR n) <= 1)%R) /\
+  (forall n : Z, (1 <= n)%Z -> round radix2 (FLT_exp (-149) 24) ZnearestE (IZR n / IZR n) = 1%R).
+Proof.
+  split; [|split; [|split]].
+  - intros c n Hc Hn. apply (quot_round_range 53 (-1074)); lia.
+  - intros n Hn. apply (quot_round_one 53 (-1074)); lia.
+  - intros c n Hc Hn. apply (quot_round_range 24 (-149)); lia.
+  - intros n Hn. apply (quot_round_one 24 (-149)); lia.
+Qed.
